@@ -101,12 +101,12 @@ end A
 /-- a release, or a request whose result the code ignores -/
 inductive Act where
   | free (b : Blk) (n : Nat)
-  | shrink (b : Blk) (old new : Nat)      -- a shrinking realloc; refusal is absorbed (F16c)
+  | shrink (b : Blk) (new : Nat)      -- realloc from new + 1 to new elements; refusal is absorbed (F16c)
 deriving DecidableEq, Repr
 
 def A.act (a : A) : Act → A
   | .free b n => a.free b n
-  | .shrink b old new => (a.realloc b old new).2
+  | .shrink b new => (a.realloc b (new + 1) new).2
 
 def A.run (a : A) (acts : List Act) : A := acts.foldl A.act a
 
@@ -176,7 +176,7 @@ def remSite (w : Nat) (t : Trie) (addr : Addr) (len : Nat) (e : Elem) : RemSite 
 def remActs (T : PfxTable) (r : Rec) : List Act :=
   match remSite r.width (T.root r.v6) r.addr r.len r.elem with
   | .none => []
-  | .shrink n => [.shrink .ary n (n - 1)]
+  | .shrink n => [.shrink .ary (n - 1)]
   | .last => [.free .ary 1, .free .ndata 1, .free .node 1]
 
 /-- `pfx_table_remove` under the oracle (fixed code: a refused shrinking realloc is ignored) -/
@@ -196,7 +196,7 @@ def removeU (a : A) (T : PfxTable) (r : Rec) : A × PfxTable × PfxRc :=
     elements of which `g` belong to the source: every call shrinks the array by one, the call that
     empties it releases it -/
 def delActs (n g : Nat) : List Act :=
-  (List.range g).map fun j => if n - j = 1 then .free .ary 1 else .shrink .ary (n - j) (n - j - 1)
+  (List.range g).map fun j => if n - j = 1 then .free .ary 1 else .shrink .ary (n - j - 1)
 
 /-- requests and releases of `pfx_table_remove_id`, in order (same recursion as `removeId`) -/
 def removeIdActs (src : Nat) : Trie → List Act
